@@ -5,17 +5,24 @@
 (* no plaintext cell is ever established or delivered.                                         *)
 EXTENDS Transport, TLC
 VARIABLE cell
-Cells == [side : {"exporter", "collector"}, proto : {"tls", "dtls"}, srvCert : SrvCerts, srvName : SrvNames,
-          cliCert : CliCerts, cliCA : BOOLEAN, peerMax : {11, 12, 13}, plain : BOOLEAN, cfg : {"ok", "badCA", "badKey"}]
-Init == cell \in Cells
-Next == UNCHANGED cell
+\* validity periods: long valid, not yet valid (by a day / by two minutes), expired (a day / a minute ago), about to end
+Periods == { <<-3600, 43200>>, <<86400, 172800>>, <<120, 43200>>, <<-172800, -86400>>, <<-3600, -60>>, <<-120, 120>> }
+Cells == { [side |-> sd, proto |-> pr, srvCert |-> sc, srvName |-> sn, cliCert |-> cc, cliCA |-> ca, peerMax |-> pm,
+            plain |-> pl, cfg |-> cf, nb |-> pd[1], na |-> pd[2]] :
+           sd \in {"exporter", "collector"}, pr \in {"tls", "dtls"}, sc \in SrvCerts, sn \in SrvNames, cc \in CliCerts,
+           ca \in BOOLEAN, pm \in {11, 12, 13}, pl \in BOOLEAN, cf \in {"ok", "badCA", "badKey"}, pd \in Periods }
+Init == cell \in Cells /\ sess = << >>
+Next == UNCHANGED << cell, sess >>
 EstablishedImpliesVerified ==
   (cell.side = "exporter" /\ cell.proto = "tls" /\ ExporterEstablishes(cell) = "yes") =>
-     (Chains(cell.srvCert) /\ InValidity(cell.srvCert) /\ cell.srvCert = "trusted" /\ cell.srvName # "mismatch" /\ cell.peerMax >= 12 /\ ~cell.plain)
+     (Chains(cell.srvCert) /\ cell.nb <= 0 /\ cell.na >= 0 /\ cell.srvCert = "trusted" /\ cell.srvName # "mismatch" /\ cell.peerMax >= 12 /\ ~cell.plain)
 DeliveryImpliesClientAuth ==
   (cell.side = "collector" /\ cell.proto = "tls" /\ cell.cliCA /\ CollectorDelivers(cell) = "yes") => cell.cliCert = "trusted"
 NoPlaintext == /\ cell.plain => (ExporterEstablishes(cell) = "no" /\ CollectorDelivers(cell) = "no")
                /\ cell.cfg # "ok" => ExporterEstablishes(cell) = "no"
 DtlsRefusesUnverifiable ==
-  (cell.side = "exporter" /\ cell.proto = "dtls" /\ cell.srvCert \in {"otherCA", "selfSigned", "expired", "notYetValid"}) => ExporterEstablishes(cell) = "no"
+  (cell.side = "exporter" /\ cell.proto = "dtls" /\ (cell.srvCert \in {"otherCA", "selfSigned"} \/ cell.nb > 0 \/ cell.na < 0)) => ExporterEstablishes(cell) = "no"
+\* no tolerance: a certificate that becomes valid in two minutes, or ran out a minute ago, is refused
+NoSkewTolerance ==
+  (cell.side = "exporter" /\ (cell.nb > 0 \/ cell.na < 0)) => ExporterEstablishes(cell) = "no"
 =============================================================================
